@@ -8,7 +8,7 @@ FACT_MODULES = ['Precis.Facts.Prof']
 
 def correspondence(ctx):
     corr = Corr()
-    impl = rle_check(ctx, corr, ['zs', 'nonascii_zs', 'opmap_after', 'nickmap_mid'], ['zs', 'nonascii_zs', 'opmap_after', 'nickmap_mid'])
+    impl = rle_check(ctx, corr, ['zs', 'nonascii_zs', 'opmap_after', 'nickmap_mid', 'nickmap_trail'], ['zs', 'nonascii_zs', 'opmap_after', 'nickmap_mid', 'nickmap_trail'])
     zs = [c for s_, e, v in impl['zs'] if v == '1' for c in range(s_, e + 1)]
     corr.count('zs_code_points', len(zs))
     alpha = xa(ctx, SPACES + PLAIN, 3)
